@@ -5,7 +5,7 @@
    a failing callback and with any filter answer / new block / Stop), i.e.
    every arrival time of requests and blocks relative to the scan. *)
 From Coq Require Import ZArith List Bool Lia Permutation.
-From Verif Require Import C10.Model C10.Spec C10.Proofs.
+From Verif Require Import C10.Model C10.Spec C10.Proofs C10.ProofsL.
 Import ListNotations.
 Open Scope Z_scope.
 
@@ -51,25 +51,169 @@ Theorem C10_fate_meaning : forall ch t o start, start <= t < Z.of_nat (length ch
 Proof. exact fate_correct. Qed.
 Print Assumptions C10_fate_meaning.
 
-(* Requests the running scan has passed are served by the next batch
-   (PARTIAL: structural half only).  A request whose start height is below
-   the height being dequeued goes to nextBatch; one at the height is taken
-   into the running batch; when the batch manager takes over again (no
-   shutdown) every request of queue and nextBatch is back in the queue,
-   nextBatch is empty and the next scan starts at or below its start height.
-   Not proved: termination of the scan loop, i.e. that the next batch
-   eventually completes when callbacks stop failing (the correspondence run
-   checks the delivery step of every request against the model instead). *)
-Theorem C10_next_batch_partial : forall s h q,
-  (In q (pq s) -> birth q < h -> In q (nextb (fst (dequeue s h)))) /\
-  (In q (pq s) -> birth q = h -> In q (snd (dequeue s h))) /\
-  (quit s = false -> In q (pq s ++ nextb s) ->
-   nextb (to_manager s) = [] /\ In q (pq (to_manager s)) /\
-   exists h0, pc (to_manager s) = Best0 h0 /\ h0 <= birth q).
+(* ------------------------------------------------------------------ *)
+(* Progress.  A "scanner step" is an operation [Step fail fm]: the chain
+   callback the batch goroutine is blocked in returns (with an error or not).
+   [steps ops] / [fails ops] count the scanner steps / the failing ones of a
+   continuation.  The only fairness hypothesis is that the continuation
+   contains enough scanner steps (no callback blocks for ever); nothing is
+   assumed about the arrival of other requests, blocks or Stop.
+
+   Measure.  [batch_left ch pc] bounds the scanner steps until the running
+   batch ends (4 per remaining height of the chain, [batch_bound ch] =
+   4 * length ch + 2 for a batch that is starting).  [covered s r]: the
+   running batch takes care of r (r is in the reporter, in flight, or queued
+   at a height the scan has not dequeued yet).  work_left ch s r =
+   batch_left + (batch_bound if r is not covered: queued below the scan
+   position or deferred into nextBatch, it needs the next batch as well). *)
+
+(* Every accepted request that is not yet answered (fresh in the queue,
+   deferred into nextBatch, requeued after a failed batch, in the reporter or
+   in flight) and whose start height is at or below the tip is answered -
+   exactly once - along EVERY continuation that contains at least
+   work_left + fails * batch_bound scanner steps.  Under the filter hypothesis
+   of C10_result_is_fate the answer is the outpoint's true fate on the chain
+   seen at delivery, or the fetch error and a callback failed IN the
+   continuation, or ErrShuttingDown and Stop was called. *)
+Theorem C10_deferred_request_answered : forall ch tip0 pre ops r,
+  0 <= tip0 < Z.of_nat (length ch) ->
+  let s := run ch (init tip0) pre in
+  pc s <> NotStarted -> In r (waiting s) -> birth r <= tip s ->
+  (work_left ch s r + fails ops * batch_bound ch <= steps ops)%nat ->
+  let s' := run ch s ops in
+  ~ In r (waiting s') /\ count_occ req_dec (delivered s') r = 1%nat /\
+  exists res t, In (r, res, t) (log s') /\ ~ In (r, res, t) (log s) /\
+    (fsound ch (init tip0) (pre ++ ops) = true ->
+     t <= tip s' /\
+     ((res = RErrFetch /\ (0 < fails ops)%nat) \/
+      (res = RErrShut /\ quit s' = true) \/
+      (0 <= birth r <= t /\ res = fate ch t (rop r) (birth r)))).
+Proof. exact deferred_request_answered. Qed.
+Print Assumptions C10_deferred_request_answered.
+
+(* The same with the explicit bound: two batches plus one per failing
+   callback, each of at most 4 * length ch + 2 scanner steps. *)
+Theorem C10_answered_within_two_batches_of_steps : forall ch tip0 pre ops r,
+  0 <= tip0 < Z.of_nat (length ch) ->
+  let s := run ch (init tip0) pre in
+  pc s <> NotStarted -> In r (waiting s) -> birth r <= tip s ->
+  ((fails ops + 2) * (4 * length ch + 2) <= steps ops)%nat ->
+  In r (delivered (run ch s ops)) /\ ~ In r (waiting (run ch s ops)).
 Proof.
-  intros s h q. split; [apply dequeue_defers|]. split; [apply dequeue_takes|apply next_batch].
+  intros ch tip0 pre ops r H0 s NS Hw Hb Hm.
+  assert (I : linv ch s) by (apply linv_run; apply linv_init; exact H0).
+  pose proof (work_left_max ch s r I) as M. unfold batch_bound in M.
+  assert (Hm' : (work_left ch s r + fails ops * batch_bound ch <= steps ops)%nat) by (unfold batch_bound; nia).
+  destruct (deferred_request_answered ch tip0 pre ops r H0 NS Hw Hb Hm') as (NW & C & _).
+  split; [|exact NW]. apply (count_occ_In req_dec). subst s. lia.
 Qed.
-Print Assumptions C10_next_batch_partial.
+Print Assumptions C10_answered_within_two_batches_of_steps.
+
+(* The measure, operation by operation, in every reachable state, for a
+   request that is waiting and not answered: a scanner step whose callback
+   succeeds strictly decreases work_left (or answers r), a failing one leaves
+   at most one batch of work (or answers r with the error), and every other
+   operation - Enqueue of other requests with any start height, new block,
+   Stop - does not increase it.  Arrivals therefore cannot starve r: a
+   request below the scan position is deferred, it never extends the running
+   batch. *)
+Theorem C10_work_left_measure : forall ch tip0 pre o r,
+  0 <= tip0 < Z.of_nat (length ch) ->
+  let s := run ch (init tip0) pre in
+  pc s <> NotStarted -> In r (waiting s) -> birth r <= tip s ->
+  let s' := step ch s o in
+  In r (delivered s') \/
+  (In r (waiting s') /\
+   match o with
+   | Step false _ => (work_left ch s' r < work_left ch s r)%nat
+   | Step true _ => (work_left ch s' r <= batch_bound ch)%nat
+   | _ => (work_left ch s' r <= work_left ch s r)%nat
+   end).
+Proof.
+  intros ch tip0 pre o r H0 s NS Hw Hb.
+  assert (I : linv ch s) by (apply linv_run; apply linv_init; exact H0).
+  pose proof (exactly_once ch tip0 pre) as N. cbv zeta in N. fold s in N.
+  assert (ND : ~ In r (delivered s)).
+  { intros Hd. destruct (nodup_split _ _ r N Hd) as [X _]. contradiction. }
+  exact (work_left_step ch s o r I NS Hw ND Hb).
+Qed.
+Print Assumptions C10_work_left_measure.
+
+(* Deferral (replaces the former structural C10_next_batch_partial).  When a
+   batch starts - after a batch that completed, after a batch that failed,
+   after Start, or when a request wakes the waiting batch manager - EVERY
+   waiting request is covered by it: nextBatch is empty again, all of them are
+   in the queue and the scan starts at or below each start height. *)
+Theorem C10_next_batch_covers : forall ch tip0 pre o r h,
+  0 <= tip0 < Z.of_nat (length ch) ->
+  let s := run ch (init tip0) pre in
+  (is_step o = true \/ pc s = Idle \/ pc s = NotStarted) ->
+  pc (step ch s o) = Best0 h -> In r (waiting (step ch s o)) ->
+  In r (pq (step ch s o)) /\ h <= birth r /\ covered (step ch s o) r = true.
+Proof.
+  intros ch tip0 pre o r h H0 s En Hp Hw.
+  assert (I : linv ch s) by (apply linv_run; apply linv_init; exact H0).
+  pose proof (batch_start_covers ch s o r h I En Hp Hw) as C.
+  split; [|split; [|apply covered_cov; exact C]]; unfold cov in C; rewrite Hp in C; tauto.
+Qed.
+Print Assumptions C10_next_batch_covers.
+
+(* ... a covered request stays covered while its batch runs (work_left
+   measure), and it is answered at the latest by the step that completes the
+   batch without a failure.  Together: a request waits for at most the rest
+   of the running batch and one more batch, plus one batch per failure. *)
+Theorem C10_covered_answered_when_batch_completes : forall ch tip0 pre m r h,
+  0 <= tip0 < Z.of_nat (length ch) ->
+  let s := run ch (init tip0) pre in
+  In r (waiting s) -> birth r <= tip s -> covered s r = true ->
+  pc (step ch s (Step false m)) = Best0 h \/ pc (step ch s (Step false m)) = Idle ->
+  In r (delivered (step ch s (Step false m))).
+Proof.
+  intros ch tip0 pre m r h H0 s Hw Hb C Hp.
+  assert (I : linv ch s) by (apply linv_run; apply linv_init; exact H0).
+  apply covered_cov in C.
+  assert (NS : pc s <> NotStarted) by (intros E; unfold cov in C; rewrite E in C; exact C).
+  cbn [step] in *. destruct Hp as [Hp|Hp].
+  - eapply covered_answered_at_batch_end; eauto.
+  - destruct (step_ok_prog ch s r m I NS Hw Hb) as [D|(W & _)]; [exact D|].
+    pose proof (linv_scan_step ch s false m I) as (_ & Lb & _ & A & P). rewrite Hp in P, A.
+    destruct P as (_ & P1 & P2). unfold waiting in W. rewrite P1, P2, (A eq_refl), Lb, Hp in W. destruct W.
+Qed.
+Print Assumptions C10_covered_answered_when_batch_completes.
+
+(* The two hypotheses of the progress theorem are needed (behaviour of the
+   code, not counted as violations of the statement).  (1) A bound in scanner
+   steps alone does not exist when callbacks keep failing: with the first
+   BestSnapshot failing every time the batch manager restarts the scan for
+   ever; the queued request gets neither a result nor the error. *)
+Theorem C10_progress_needs_finite_failures : forall ch tip0 o b n, 0 <= b ->
+  let r := {| rid := 0; rop := o; birth := b |} in
+  let s := run ch (init tip0) [Enq o b; Start] in
+  pc s <> NotStarted /\ In r (waiting s) /\
+  In r (waiting (run ch s (repeat (Step true true) n))) /\
+  delivered (run ch s (repeat (Step true true) n)) = [].
+Proof. exact failures_starve. Qed.
+Print Assumptions C10_progress_needs_finite_failures.
+
+(* (2) A request whose start height is above the tip is not answered while
+   no block arrives: the batch manager polls BestSnapshot for ever (it is
+   answered once the chain reaches the height, or at shutdown). *)
+Theorem C10_progress_needs_start_at_or_below_tip : forall ch tip0 o b n, 0 <= b -> tip0 < b ->
+  let r := {| rid := 0; rop := o; birth := b |} in
+  let s := run ch (init tip0) [Enq o b; Start] in
+  pc s <> NotStarted /\ In r (waiting s) /\
+  In r (waiting (run ch s (repeat (Step false true) n))) /\
+  delivered (run ch s (repeat (Step false true) n)) = [].
+Proof. exact above_tip_waits. Qed.
+Print Assumptions C10_progress_needs_start_at_or_below_tip.
+
+(* The monitor tells the two BestSnapshot calls (start of a batch / end of the
+   scanned range, one observation code) apart by tracking a phase; on the
+   model the tracked phase is the true one after every operation. *)
+Theorem C10_phase_correct : forall ch s o,
+  next_phase (phase_of (pc s)) o (code_of (pc (step ch s o))) = phase_of (pc (step ch s o)).
+Proof. exact phase_correct. Qed.
+Print Assumptions C10_phase_correct.
 
 (* Non-vacuity: a history with a request served at its creation height, a
    duplicate request for the same outpoint with a later start height arriving
@@ -102,3 +246,20 @@ Example C10_nonvacuous :
    [ (0, RUnspent 1 1 2 0); (1, REmpty); (3, RSpent 2 0 1); (2, RSpent 5 1 3);
      (4, RErrFetch); (5, RErrShut) ]).
 Proof. vm_compute. repeat split. Qed.
+
+(* Non-vacuity of the progress theorem: in the history above, after the first
+   eight operations the request 2 for (2,1) with start height 1 has arrived
+   while the scan was at height 2: it is not covered, work_left = 12 + 22.
+   34 scanner steps (the first batch to its end, the next batch from height
+   0) answer it with the spend in block 3. *)
+Example C10_progress_nonvacuous :
+  let pre := firstn 8 ex_ops in
+  let s := run ex_chain (init 3) pre in
+  let r := {| rid := 2; rop := (2, 1); birth := 1 |} in
+  let ops := repeat (Step false true) 34 in
+  pc s = Hash 2 3 /\ In r (waiting s) /\ birth r <= tip s /\ covered s r = false /\
+  work_left ex_chain s r = 34%nat /\
+  (work_left ex_chain s r + fails ops * batch_bound ex_chain <= steps ops)%nat /\
+  fsound ex_chain (init 3) (pre ++ ops) = true /\
+  In (r, RSpent 5 1 3, 3) (log (run ex_chain s ops)).
+Proof. vm_compute. repeat split; auto 10; try (intros H; discriminate H). Qed.
